@@ -17,23 +17,97 @@ theorem L_optAlias (al nm : Name) :
   · exact L.optNone
   · exact L.optSome (L.nt (L.cons (L.name al) (L.kind .colon)))
 
+/-! the canonical-form rewritings leave printed fields and operations unchanged -/
+
+theorem head_printArguments (as : List Argument) : ∀ t, (printArguments as).head? = some t → t = tP .parenL := by
+  intro t h
+  cases as with
+  | nil => simp [printArguments] at h
+  | cons a r => simp [printArguments] at h; exact h.symm
+
+theorem head_printDirectives (ds : List Directive) : ∀ t, (printDirectives ds).head? = some t → t = tP .at := by
+  intro t h
+  cases ds with
+  | nil => simp [printDirectives] at h
+  | cons d r => simp [printDirectives, printDirective] at h; exact h.symm
+
+theorem head_printVarDefs (vs : List VarDef) : ∀ t, (printVarDefs vs).head? = some t → t = tP .parenL := by
+  intro t h
+  cases vs with
+  | nil => simp [printVarDefs] at h
+  | cons a r => simp [printVarDefs] at h; exact h.symm
+
+theorem head_append {xs ys : List Tok} {P : Tok → Prop} (hx : ∀ t, xs.head? = some t → P t)
+    (hy : ∀ t, ys.head? = some t → P t) : ∀ t, (xs ++ ys).head? = some t → P t := by
+  intro t h
+  cases xs with
+  | nil => exact hy t (by simpa using h)
+  | cons x r => exact hx t (by simpa using h)
+
+theorem dropSelfAlias_plain (n : Tok) (rest : List Tok) (h : ∀ t, rest.head? = some t → t.kind ≠ .colon) :
+    dropSelfAlias (n :: rest) = n :: rest := by
+  match rest, h with
+  | [], _ => rfl
+  | [b], _ => rfl
+  | b :: c :: r, h =>
+    have hb := h b rfl
+    simp [dropSelfAlias, hb]
+
+theorem dropSelfAlias_alias (al nm : Name) (hne : al ≠ nm) (rest : List Tok) :
+    dropSelfAlias (tName al :: tP .colon :: tName nm :: rest) = tName al :: tP .colon :: tName nm :: rest := by
+  have : tName nm ≠ tName al := by
+    intro e
+    simp only [tName, Tok.mk.injEq, true_and] at e
+    exact hne e.symm
+  simp [dropSelfAlias, this]
+
+theorem dropBareQuery_brace (rest : List Tok) : dropBareQuery (tP .braceL :: rest) = tP .braceL :: rest := by
+  cases rest with
+  | nil => rfl
+  | cons b r => simp [dropBareQuery, tP]
+
+theorem dropBareQuery_second (a : Tok) (rest : List Tok) (h : ∀ t, rest.head? = some t → t.kind ≠ .braceL) :
+    dropBareQuery (a :: rest) = a :: rest := by
+  cases rest with
+  | nil => rfl
+  | cons b r =>
+    have hb := h b rfl
+    simp [dropBareQuery, hb]
+
+theorem dropBareQuery_first (a : Tok) (rest : List Tok) (h : a.value ≠ str "query") :
+    dropBareQuery (a :: rest) = a :: rest := by
+  cases rest with
+  | nil => rfl
+  | cons b r => simp [dropBareQuery, h]
+
 theorem field_of (al nm : Name) (args : List Argument) (ds : List Directive) {tsSel : List Tok}
-    (hsel : L (.opt (.nt .selectionSet)) tsSel) :
+    (hsel : L (.opt (.nt .selectionSet)) tsSel) (hhead : ∀ t, tsSel.head? = some t → t.kind ≠ .colon) :
     L (.nt .selection)
       ((if al = nm then [] else [tName al, tP .colon]) ++ tName nm :: (printArguments args ++ (printDirectives ds ++ tsSel))) := by
-  have hf : L (.nt .field) _ :=
-    L.nt (L.canon (L.seq (L_optAlias al nm) (L.nameCons nm (L.seq (L_optArguments false args (by simp))
-      (L.seq (L_optDirectives false ds (by simp)) hsel)))))
+  have hbody := L.seq (L_optAlias al nm) (L.nameCons nm (L.seq (L_optArguments false args (by simp))
+      (L.seq (L_optDirectives false ds (by simp)) hsel)))
+  have hcanon : dropSelfAlias ((if al = nm then [] else [tName al, tP .colon]) ++ tName nm ::
+      (printArguments args ++ (printDirectives ds ++ tsSel)))
+      = (if al = nm then [] else [tName al, tP .colon]) ++ tName nm :: (printArguments args ++ (printDirectives ds ++ tsSel)) := by
+    split
+    · simp only [List.nil_append]
+      refine dropSelfAlias_plain _ _ (head_append (fun t h => ?_) (head_append (fun t h => ?_) hhead))
+      · rw [head_printArguments _ t h]; simp [tP]
+      · rw [head_printDirectives _ t h]; simp [tP]
+    · rename_i hne
+      simpa using dropSelfAlias_alias al nm hne _
+  have hf : L (.nt .field) _ := L.nt (L.canon hbody hcanon)
   exact L.nt (n := .selection) (L.altL hf)
 
 mutual
   theorem L_selection : ∀ s : Selection, WFSelection s → L (.nt .selection) (printSelection s)
     | .field al nm args ds sel _, h => by
       cases sel with
-      | nil => simpa [printSelection, List.append_assoc] using field_of al nm args ds L.optNone
+      | nil => simpa [printSelection, List.append_assoc] using field_of al nm args ds L.optNone (by simp)
       | cons s rest =>
         simp only [WFSelection, WFSelections] at h
         have := field_of al nm args ds (L.optSome (selSet_of (L_selection s h.1) (L_selections rest h.2)))
+          (by intro t ht; simp only [List.cons_append, List.head?_cons, Option.some.injEq] at ht; subst ht; simp [tP])
         simpa [printSelection, List.append_assoc] using this
     | .spread nm ds _, h => by
       simp only [WFSelection] at h
@@ -101,14 +175,46 @@ theorem L_operation (o : OperationDef) (h : WFOperation o) : L (.nt .operationDe
   obtain ⟨hop, hvars, hne, hsel⟩ := h
   unfold printOperation
   split
-  · exact L.nt (L.canon (L.altR (L_selectionSet o.sel hne hsel)))
-  · have hn : L (.opt (.nt .name)) (if o.name = [] then [] else [tName o.name]) := by
+  · exact L.nt (L.canon (L.altR (L_selectionSet o.sel hne hsel)) (dropBareQuery_brace _))
+  · rename_i hbare
+    have hn : L (.opt (.nt .name)) (if o.name = [] then [] else [tName o.name]) := by
       split
       · exact L.optNone
       · exact L.optSome (L.name o.name)
-    have := L.nt (n := .operationDefinition) (L.canon (L.altL (L.seq (L_operationType o.op hop) (L.seq hn
+    have hbody := L.altL (b := .nt .selectionSet) (L.seq (L_operationType o.op hop) (L.seq hn
       (L.seq (L_optVarDefs o.vars hvars) (L.seq (L_optDirectives false o.dirs (by simp))
-        (L_selectionSet o.sel hne hsel)))))))
+        (L_selectionSet o.sel hne hsel)))))
+    have hcanon : dropBareQuery ([tName o.op] ++ ((if o.name = [] then [] else [tName o.name]) ++
+        (printVarDefs o.vars ++ (printDirectives o.dirs ++ printSelectionSet o.sel))))
+        = [tName o.op] ++ ((if o.name = [] then [] else [tName o.name]) ++
+        (printVarDefs o.vars ++ (printDirectives o.dirs ++ printSelectionSet o.sel))) := by
+      simp only [List.singleton_append]
+      by_cases hq : o.op = str "query"
+      · refine dropBareQuery_second _ _ ?_
+        by_cases h1 : o.name = []
+        · by_cases h2 : o.vars = []
+          · by_cases h3 : o.dirs = []
+            · exact absurd (by simp [OperationDef.isBare, hq, h1, h2, h3]) hbare
+            · simp only [h1, if_true, List.nil_append, h2, printVarDefs, List.isEmpty_nil]
+              cases hd : o.dirs with
+              | nil => exact absurd hd h3
+              | cons d r =>
+                intro t h
+                simp [printDirectives, printDirective] at h
+                subst h; simp [tP]
+          · simp only [h1, if_true, List.nil_append]
+            cases hv : o.vars with
+            | nil => exact absurd hv h2
+            | cons v r =>
+              intro t h
+              simp [printVarDefs] at h
+              subst h; simp [tP]
+        · simp only [h1, if_false]
+          intro t h
+          simp at h
+          subst h; simp [tName]
+      · exact dropBareQuery_first _ _ (by simpa [tName] using hq)
+    have := L.nt (n := .operationDefinition) (L.canon hbody hcanon)
     simpa [List.append_assoc] using this
 
 theorem L_fragment (f : FragmentDef) (h : WFFragment f) : L (.nt .fragmentDefinition) (printFragment f) := by
